@@ -11,23 +11,13 @@ Local Open Scope N_scope.
 Lemma async_twins_are : async_twins = [m_lookup; m_getattr; m_setattr; m_open; m_create; m_read; m_write; m_fsync; m_fallocate; m_fsyncdir].
 Proof. reflexivity. Qed.
 
-(* same answer, same calls (tagged as async), for every operation but getattr of a pseudo directory *)
-Theorem vfs_async_same : forall s c o a, has_async_twin o = true ->
-  (forall n id, o = OGetattr n -> get_real_rootfs s n <> Ok (SLeft id)) ->
-  vfs_async_op s c o a = tagged (vfs_op s c o a).
-Proof.
-  intros s c o a Ht Hg. unfold vfs_async_op. rewrite Ht. destruct o; try reflexivity.
-  destruct (get_real_rootfs s ino) as [[id|b idx id]| |] eqn:E; try reflexivity.
-  exfalso. exact (Hg ino id eq_refl E).
-Qed.
+(* same answer, same calls (tagged as async), for every one of the ten operations, on every state *)
+Theorem vfs_async_same : forall s c o a, has_async_twin o = true -> vfs_async_op s c o a = tagged (vfs_op s c o a).
+Proof. intros s c o a Ht. unfold vfs_async_op. rewrite Ht. reflexivity. Qed.
 
-(* the calls are those of the sync twin in every case (getattr of a pseudo directory reaches no backend either way) *)
 Theorem vfs_async_events : forall s c o a, has_async_twin o = true ->
   snd (vfs_async_op s c o a) = map tag_async (snd (vfs_op s c o a)).
-Proof.
-  intros s c o a Ht. unfold vfs_async_op. rewrite Ht. destruct o; try reflexivity.
-  cbn [vfs_op]. destruct (get_real_rootfs s ino) as [[id|b idx id]| |]; reflexivity.
-Qed.
+Proof. intros s c o a Ht. rewrite (vfs_async_same s c o a Ht). reflexivity. Qed.
 
 Lemma Forall_map_tagged {A B} (f : A -> B) (P : A -> Prop) l : Forall P l -> Forall (fun y => exists x, P x /\ y = f x) (map f l).
 Proof. induction 1 as [|x r Hx _ IH]; [constructor|]. cbn [map]. constructor; [exists x; auto|exact IH]. Qed.
@@ -54,41 +44,16 @@ Proof.
   cbn [tag_async ev_cuid ev_cgid]. cbn [c_uid c_gid] in A, B. rewrite A, B. auto.
 Qed.
 
-(* ---------- async getattr of a pseudo directory ---------- *)
-Definition async_getattr_full : Prop := forall s c n a, reachable s -> n < two64 ->
+(* ---------- async getattr answers like the sync getattr, pseudo directories included (fix 3199019) ---------- *)
+Theorem async_getattr_full : forall s c n a,
   fst (vfs_async_op s c (OGetattr n) a) = fst (vfs_op s c (OGetattr n) a).
+Proof. intros s c n a. rewrite vfs_async_same; reflexivity. Qed.
 
-(* holds when the mapping of index 0 does not cover id 0 (then translating the pseudo owner 0:0 is the identity) *)
-Theorem async_getattr_partial : forall s c n a, n < two64 ->
-  to_ext (effective_mapping s 0) 0 = Some 0 ->
-  fst (vfs_async_op s c (OGetattr n) a) = fst (vfs_op s c (OGetattr n) a).
-Proof.
-  intros s c n a Hn H0. unfold vfs_async_op. cbn [has_async_twin]. change (memN m_getattr async_twins) with true. cbv iota.
-  cbn [vfs_op]. destruct (get_real_rootfs s n) as [[id|b idx id]| |] eqn:E; try reflexivity.
-  cbn [fst]. assert (Hid : id = n /\ fs_idx n = 0).
-  { unfold get_real_rootfs in E. destruct (fs_idx n =? 0) eqn:E0.
-    - apply N.eqb_eq in E0. split; [|exact E0].
-      destruct (ino_of n =? ROOT_ID); [destruct (aget ROOT_ID (v_mps s)) as [mnt|]|]; try (inversion E; reflexivity).
-      unfold get_fs_by_idx in E. destruct (aget (mp_idx mnt) (v_sb s)); cbn [bind] in E; [|discriminate].
-      destruct (N.land (mp_ino mnt) (N.lnot VFS_MAX_INO 64) =? 0); discriminate.
-    - unfold get_fs_by_idx in E. destruct (aget (fs_idx n) (v_sb s)); cbn [bind] in E; discriminate. }
-  destruct Hid as [-> Hf]. rewrite Hf.
-  assert (Hino : ino_of n = n).
-  { pose proof (vino_decompose n Hn) as D. rewrite Hf in D. rewrite D at 2.
-    pose proof (ino_of_le n) as Hle. symmetry. apply (pseudo_ino_codec (ino_of n) Hle). }
-  destruct (ps_getattr (v_ps s) (ino_of n)) as [i| |] eqn:Ep; try reflexivity. cbn [bind].
-  assert (Hi : i = ino_of n) by (unfold ps_getattr in Ep; destruct (aget (ino_of n) (ps_inodes (v_ps s))); inversion Ep; reflexivity).
-  unfold convert_attr. cbn [pseudo_attr a_uid a_gid a_tag]. rewrite H0. cbn [bind]. subst i. rewrite Hino. reflexivity.
-Qed.
-
-(* refuted: global mapping (0,1000,65536); the pseudo directory 2 is owned by 1000:1000 for the sync getattr (and lookup),
-   by 0:0 for the async getattr *)
-Theorem async_getattr_refuted : ~ async_getattr_full.
-Proof.
-  intros F. assert (R : reachable ex_gmap) by exact (proj1 pseudo_owner_translated).
-  specialize (F ex_gmap (mkC 0 0) 2 (mkAns 0 (mkE 0 0 0 0 0) (mkA 0 0 0 0) 0 []) R ltac:(reflexivity)).
-  vm_compute in F. discriminate F.
-Qed.
+(* the former witness: global mapping (0,1000,65536); the pseudo directory 2 is owned by 1000:1000 for lookup, the sync
+   getattr and now the async getattr as well *)
+Example async_getattr_pseudo : reachable ex_gmap /\
+  fst (vfs_async_op ex_gmap (mkC 0 0) (OGetattr 2) (mkAns 0 (mkE 0 0 0 0 0) (mkA 0 0 0 0) 0 [])) = Ok (RAttr (mkA 2 1000 1000 0)).
+Proof. split; [exact (proj1 pseudo_owner_translated)|vm_compute; reflexivity]. Qed.
 
 Example async_lookup_example : reachable ex_rootmap /\
   vfs_request_async ex_rootmap 1 (mkC 100005 100006) (OLookup 1 (NNorm 3)) (mkAns 0 (mkE 9 9 7 8 0) (mkA 0 0 0 0) 0 []) =
